@@ -41,9 +41,10 @@ theorem absorbAll_append (m : Method) (acc : List Ev × List Char) (a b : List R
   simp [absorbAll, List.foldl_append]
 
 /-- what the reader has after the flushed run -/
-theorem absorbAll_wsFlush (m : Method) (out : List Ev) (buf : List (List Char × Bool)) (pp : List QChar)
-    (h : BufRel buf pp) :
-    absorbAll m (out, []) ((wsFlush 0 buf).map rawOf) = (out, normWs (escapeMixed pp)) := by
+theorem absorbAll_wsFlush (m : Method) (p : Nat) (out : List Ev) (buf : List (List Char × Bool))
+    (pp : List QChar) (h : BufRel buf pp) :
+    absorbAll m (out, []) ((wsFlush p buf).map rawOf) =
+      (out, if p = 0 then normWs (escapeMixed pp) else escapeMixed pp) := by
   unfold wsFlush
   cases hb : buf.isEmpty
   · unfold BufRel at h
@@ -53,29 +54,41 @@ theorem absorbAll_wsFlush (m : Method) (out : List Ev) (buf : List (List Char ×
     subst this
     have := bufRel_empty pp h
     subst this
-    rfl
+    by_cases hp : p = 0 <;> simp [hp, absorbAll, escapeMixed_nil, normWs, trimTrailing, collapseLines]
 
-theorem flushText_normWs (pp : List QChar) :
-    flushText (normWs (escapeMixed pp)) = flushDataS (pp.map (·.2)) := by
-  rw [normWs_mixed, flushText_mixed, normWsQ_snd]
-  rfl
+theorem flushText_normWs (p : Nat) (pp : List QChar) :
+    flushText (if p = 0 then normWs (escapeMixed pp) else escapeMixed pp) = flushDataP p (pp.map (·.2)) := by
+  unfold flushDataP
+  by_cases hp : p = 0
+  · simp only [hp, ↓reduceIte]
+    rw [normWs_mixed, flushText_mixed, normWsQ_snd]
+  · simp only [hp, ↓reduceIte]
+    rw [flushText_mixed]
+
+theorem presStep_pred (pres : List Name) (p : Nat) (t : Name) : presStep pres p t - 1 = p := by
+  unfold presStep
+  split
+  · simp
+  · rename_i h
+    simp only [Bool.or_eq_true, decide_eq_true_eq, not_or, Nat.not_lt, Nat.le_zero_eq] at h
+    simp [h.1]
 
 /-- reading the raw tokens of the filtered token list -/
 theorem absorb_coalesceStrip (m : Method) (pres noesc : List Name) (toks : List Tok)
     (hs : ∀ s, Tok.text s true ∈ toks → SafeOk s)
-    (ho : ∀ t a, Tok.open t a ∈ toks → openOk m t = true ∧ pres.contains t = false ∧ noesc.contains t = false) :
-    ∀ (out : List Ev) (buf : List (List Char × Bool)) (pp : List QChar), BufRel buf pp →
-      (absorbAll m (out, []) ((wsFilter pres noesc 0 false buf toks).map rawOf)).1 ++
-        flushText (absorbAll m (out, []) ((wsFilter pres noesc 0 false buf toks).map rawOf)).2
-      = out ++ coalesceStripGo (pp.map (·.2)) (toks.flatMap tokEvents) := by
+    (ho : ∀ t a, Tok.open t a ∈ toks → openOk m t = true ∧ noesc.contains t = false) :
+    ∀ (p : Nat) (out : List Ev) (buf : List (List Char × Bool)) (pp : List QChar), BufRel buf pp →
+      (absorbAll m (out, []) ((wsFilter pres noesc p false buf toks).map rawOf)).1 ++
+        flushText (absorbAll m (out, []) ((wsFilter pres noesc p false buf toks).map rawOf)).2
+      = out ++ coalesceStripGo pres p (pp.map (·.2)) (toks.flatMap tokEvents) := by
   induction toks with
   | nil =>
-    intro out buf pp hrel
-    simp only [wsFilter, absorbAll_wsFlush m out buf pp hrel, flushText_normWs, List.flatMap_nil, coalesceStripGo]
+    intro p out buf pp hrel
+    simp only [wsFilter, absorbAll_wsFlush m p out buf pp hrel, flushText_normWs, List.flatMap_nil, coalesceStripGo]
   | cons t ts ih =>
-    intro out buf pp hrel
+    intro p out buf pp hrel
     have hs' : ∀ s, Tok.text s true ∈ ts → SafeOk s := fun s h => hs s (List.mem_cons_of_mem _ h)
-    have ho' : ∀ t a, Tok.open t a ∈ ts → openOk m t = true ∧ pres.contains t = false ∧ noesc.contains t = false :=
+    have ho' : ∀ t a, Tok.open t a ∈ ts → openOk m t = true ∧ noesc.contains t = false :=
       fun t a h => ho t a (List.mem_cons_of_mem _ h)
     have ih' := ih hs' ho'
     cases t with
@@ -83,59 +96,70 @@ theorem absorb_coalesceStrip (m : Method) (pres noesc : List Name) (toks : List 
       cases f
       · simp only [wsFilter, Bool.or_false, List.flatMap_cons, tokEvents, List.cons_append, List.nil_append,
           coalesceStripGo, textValue, Bool.false_eq_true, ↓reduceIte]
-        rw [ih' out _ _ (bufRel_snoc_plain buf pp s hrel)]
+        rw [ih' p out _ _ (bufRel_snoc_plain buf pp s hrel)]
         simp [List.map_append, List.map_map, Function.comp_def]
       · obtain ⟨ps, rfl⟩ := hs s (by simp)
         simp only [wsFilter, Bool.or_false, List.flatMap_cons, tokEvents, List.cons_append, List.nil_append,
           coalesceStripGo, textValue, ↓reduceIte]
-        rw [ih' out _ _ (bufRel_snoc_safe buf pp ps hrel), unescape_escapeMixed]
+        rw [ih' p out _ _ (bufRel_snoc_safe buf pp ps hrel), unescape_escapeMixed]
         simp [List.map_append]
     | close t =>
-      simp only [wsFilter, List.map_append, List.map_cons, absorbAll_append, absorbAll_wsFlush m out buf pp hrel,
+      simp only [wsFilter, List.map_append, List.map_cons, absorbAll_append, absorbAll_wsFlush m p out buf pp hrel,
         List.flatMap_cons, tokEvents, List.cons_append, List.nil_append, coalesceStripGo]
       simp only [absorbAll, List.foldl_cons, rawOf, absorb]
-      have := ih' (out ++ flushText (normWs (escapeMixed pp)) ++ [.end_ t]) [] [] bufRel_nil
-      simp only [absorbAll, Nat.zero_sub] at this ⊢
+      have := ih' (p - 1) (out ++ flushText (if p = 0 then normWs (escapeMixed pp) else escapeMixed pp) ++ [.end_ t])
+        [] [] bufRel_nil
+      simp only [absorbAll] at this ⊢
       rw [this, flushText_normWs]
       simp
     | «open» t a =>
-      obtain ⟨hop, hpr, hne⟩ := ho t a (by simp)
+      obtain ⟨hop, hne⟩ := ho t a (by simp)
       have hse : startEvents m t a = [.start t a] := by
         apply startEvents_nonvoid
         intro hm
         simpa [openOk, hm] using hop
-      simp only [wsFilter, List.map_append, List.map_cons, absorbAll_append, absorbAll_wsFlush m out buf pp hrel,
-        List.flatMap_cons, tokEvents, List.cons_append, List.nil_append, coalesceStripGo, hpr, hne,
-        Nat.lt_irrefl, decide_false, Bool.or_self, Bool.false_eq_true, ↓reduceIte]
+      simp only [wsFilter, List.map_append, List.map_cons, absorbAll_append, absorbAll_wsFlush m p out buf pp hrel,
+        List.flatMap_cons, tokEvents, List.cons_append, List.nil_append, coalesceStripGo, hne,
+        Bool.or_self]
       simp only [absorbAll, List.foldl_cons, rawOf, absorb, decodeAttrs_escaped, hse]
-      have := ih' (out ++ flushText (normWs (escapeMixed pp)) ++ [.start t a]) [] [] bufRel_nil
-      simp only [absorbAll] at this ⊢
+      have := ih' (presStep pres p t)
+        (out ++ flushText (if p = 0 then normWs (escapeMixed pp) else escapeMixed pp) ++ [.start t a]) [] [] bufRel_nil
+      simp only [absorbAll, presStep] at this ⊢
       rw [this, flushText_normWs]
       simp
     | empty t a =>
-      simp only [wsFilter, List.map_append, List.map_cons, absorbAll_append, absorbAll_wsFlush m out buf pp hrel,
-        List.flatMap_cons, tokEvents, List.cons_append, List.nil_append, coalesceStripGo]
+      simp only [wsFilter, List.map_append, List.map_cons, absorbAll_append, absorbAll_wsFlush m p out buf pp hrel,
+        List.flatMap_cons, tokEvents, List.cons_append, List.nil_append, coalesceStripGo, presStep_pred]
       simp only [absorbAll, List.foldl_cons, rawOf, absorb, decodeAttrs_escaped]
-      have := ih' (out ++ flushText (normWs (escapeMixed pp)) ++ [.start t a, .end_ t]) [] [] bufRel_nil
+      have := ih' p (out ++ flushText (if p = 0 then normWs (escapeMixed pp) else escapeMixed pp) ++ [.start t a, .end_ t])
+        [] [] bufRel_nil
       simp only [absorbAll] at this ⊢
       rw [this, flushText_normWs]
-      simp [flushDataS, flushData, normWs, trimTrailing, collapseLines]
+      have hnil : ∀ q, flushDataP q [] = [] := by
+        intro q; by_cases hq : q = 0 <;> simp [flushDataP, hq, flushData, normWs, trimTrailing, collapseLines]
+      simp [hnil]
 
 theorem safeOk_normWs (pp : List QChar) : SafeOk (normWs (escapeMixed pp)) :=
   ⟨normWsQ pp, normWs_mixed pp⟩
+
+theorem safeOk_flushed (p : Nat) (pp : List QChar) :
+    SafeOk (if p = 0 then normWs (escapeMixed pp) else escapeMixed pp) := by
+  by_cases hp : p = 0
+  · simp only [hp, ↓reduceIte]; exact safeOk_normWs pp
+  · simp only [hp, ↓reduceIte]; exact ⟨pp, rfl⟩
 
 /-- the tokens the filter hands to the serializer -/
 theorem wsFilter_toks (m : Method) (pres noesc : List Name) (toks : List Tok)
     (hok : ∀ t ∈ toks, tokOkB m t = true)
     (hs : ∀ s, Tok.text s true ∈ toks → SafeOk s)
-    (ho : ∀ t a, Tok.open t a ∈ toks → openOk m t = true ∧ pres.contains t = false ∧ noesc.contains t = false) :
-    ∀ (buf : List (List Char × Bool)) (pp : List QChar), BufRel buf pp →
-      ∀ tok ∈ wsFilter pres noesc 0 false buf toks,
+    (ho : ∀ t a, Tok.open t a ∈ toks → openOk m t = true ∧ noesc.contains t = false) :
+    ∀ (p : Nat) (buf : List (List Char × Bool)) (pp : List QChar), BufRel buf pp →
+      ∀ tok ∈ wsFilter pres noesc p false buf toks,
         tokOkB m tok = true ∧ (∀ s f, tok = .text s f → SafeOk s) ∧
         (∀ t a, tok = .open t a → openOk m t = true) := by
   induction toks with
   | nil =>
-    intro buf pp hrel tok htok
+    intro p buf pp hrel tok htok
     simp only [wsFilter, wsFlush] at htok
     split at htok
     · simp at htok
@@ -146,16 +170,16 @@ theorem wsFilter_toks (m : Method) (pres noesc : List Name) (toks : List Tok)
       simp only [Tok.text.injEq] at he
       rw [← he.1]
       unfold BufRel at hrel
-      simp only [↓reduceIte, hrel]
-      exact safeOk_normWs pp
+      simp only [hrel]
+      exact safeOk_flushed p pp
   | cons t ts ih =>
-    intro buf pp hrel tok htok
+    intro p buf pp hrel tok htok
     have hok' : ∀ t ∈ ts, tokOkB m t = true := fun x hx => hok x (List.mem_cons_of_mem _ hx)
     have hs' : ∀ s, Tok.text s true ∈ ts → SafeOk s := fun s h => hs s (List.mem_cons_of_mem _ h)
-    have ho' : ∀ t a, Tok.open t a ∈ ts → openOk m t = true ∧ pres.contains t = false ∧ noesc.contains t = false :=
+    have ho' : ∀ t a, Tok.open t a ∈ ts → openOk m t = true ∧ noesc.contains t = false :=
       fun t a h => ho t a (List.mem_cons_of_mem _ h)
     have ih' := ih hok' hs' ho'
-    have hflush : ∀ tok ∈ wsFlush 0 buf, tokOkB m tok = true ∧ (∀ s f, tok = .text s f → SafeOk s) ∧
+    have hflush : ∀ tok ∈ wsFlush p buf, tokOkB m tok = true ∧ (∀ s f, tok = .text s f → SafeOk s) ∧
         (∀ t a, tok = .open t a → openOk m t = true) := by
       intro tok htok
       simp only [wsFlush] at htok
@@ -168,72 +192,63 @@ theorem wsFilter_toks (m : Method) (pres noesc : List Name) (toks : List Tok)
         simp only [Tok.text.injEq] at he
         rw [← he.1]
         unfold BufRel at hrel
-        simp only [↓reduceIte, hrel]
-        exact safeOk_normWs pp
+        simp only [hrel]
+        exact safeOk_flushed p pp
     cases t with
     | text s f =>
       cases f
       · simp only [wsFilter, Bool.or_false] at htok
-        exact ih' _ _ (bufRel_snoc_plain buf pp s hrel) tok htok
+        exact ih' p _ _ (bufRel_snoc_plain buf pp s hrel) tok htok
       · obtain ⟨ps, rfl⟩ := hs s (by simp)
         simp only [wsFilter, Bool.or_false] at htok
-        exact ih' _ _ (bufRel_snoc_safe buf pp ps hrel) tok htok
+        exact ih' p _ _ (bufRel_snoc_safe buf pp ps hrel) tok htok
     | close t =>
-      simp only [wsFilter, List.mem_append, List.mem_cons, Nat.zero_sub] at htok
+      simp only [wsFilter, List.mem_append, List.mem_cons] at htok
       rcases htok with h | rfl | h
       · exact hflush tok h
       · exact ⟨hok _ (by simp), by simp, by simp⟩
-      · exact ih' [] [] bufRel_nil tok h
+      · exact ih' _ [] [] bufRel_nil tok h
     | «open» t a =>
-      obtain ⟨hop, hpr, hne⟩ := ho t a (by simp)
-      simp only [wsFilter, List.mem_append, List.mem_cons, hpr, hne, Nat.lt_irrefl, decide_false,
-        Bool.or_self, Bool.false_eq_true, ↓reduceIte] at htok
+      obtain ⟨hop, hne⟩ := ho t a (by simp)
+      simp only [wsFilter, List.mem_append, List.mem_cons, hne, Bool.or_self] at htok
       rcases htok with h | rfl | h
       · exact hflush tok h
       · refine ⟨hok _ (by simp), by simp, ?_⟩
         intro t2 a2 he
         simp only [Tok.open.injEq] at he
         rw [← he.1]; exact hop
-      · exact ih' [] [] bufRel_nil tok h
+      · exact ih' _ [] [] bufRel_nil tok h
     | empty t a =>
       simp only [wsFilter, List.mem_append, List.mem_cons] at htok
       rcases htok with h | rfl | h
       · exact hflush tok h
       · exact ⟨hok _ (by simp), by simp, by simp⟩
-      · exact ih' [] [] bufRel_nil tok h
+      · exact ih' _ [] [] bufRel_nil tok h
 
 /-- **re-reading what the serializer wrote with whitespace stripping** gives the stream with
-    every run of character data merged, decoded and normalised -/
+    every run of character data merged, decoded and — outside whitespace-preserving elements —
+    normalised -/
 theorem readDoc_serialize_strip (m : Method) (evs : List Ev)
-    (hev : ∀ e ∈ evs, evOkB m e = true) (hpres : ∀ e ∈ evs, noPreserveB m e = true)
+    (hev : ∀ e ∈ evs, evOkB m e = true)
     (hsafe : TextsOk evs) (hnest : emptyOkGo m none evs = true) :
-    readDoc m (serialize m true evs) = some (coalesceStrip evs) := by
+    readDoc m (serialize m true evs) = some (coalesceStrip m evs) := by
   have htoks := emptyTags_toks m evs none (by simpa [pendName] using hnest) (by simpa [pendEvents] using hev)
   have hevs := emptyTags_events m evs none (by simpa [pendName] using hnest)
-  -- an open token is the START of some event
-  have hopen : ∀ t a, Tok.open t a ∈ emptyTagsGo none evs → Ev.start t a ∈ evs := by
-    intro t a h
-    have : Ev.start t a ∈ (emptyTagsGo none evs).flatMap tokEvents :=
-      List.mem_flatMap.mpr ⟨_, h, by simp [tokEvents]⟩
-    rw [hevs] at this
-    simpa [pendEvents] using this
   have ho : ∀ t a, Tok.open t a ∈ emptyTagsGo none evs →
-      openOk m t = true ∧ (preserveElems m).contains t = false ∧ (noescapeElems m).contains t = false := by
+      openOk m t = true ∧ (noescapeElems m).contains t = false := by
     intro t a h
     have h1 := (htoks _ h).2.2 t a rfl
-    have h2 := hpres _ (hopen t a h)
     have h3 := (htoks _ h).1
-    simp only [noPreserveB, Bool.not_eq_true'] at h2
     simp only [tokOkB, Bool.and_eq_true, Bool.not_eq_true'] at h3
-    exact ⟨h1, h2, h3.2⟩
+    exact ⟨h1, h3.2⟩
   have hs : ∀ s, Tok.text s true ∈ emptyTagsGo none evs → SafeOk s :=
     fun s h => hsafe s ((htoks _ h).2.1 s rfl)
   have hW := wsFilter_toks m (preserveElems m) (noescapeElems m) (emptyTagsGo none evs)
-    (fun t ht => (htoks t ht).1) hs ho [] [] bufRel_nil
+    (fun t ht => (htoks t ht).1) hs ho 0 [] [] bufRel_nil
   have hraw := serToks_raw m _ (fun t ht => (hW t ht).1)
   simp only [serialize, ↓reduceIte, emptyTags]
   rw [hraw, readDoc_rtoks]
-  · have := absorb_coalesceStrip m (preserveElems m) (noescapeElems m) (emptyTagsGo none evs) hs ho [] [] []
+  · have := absorb_coalesceStrip m (preserveElems m) (noescapeElems m) (emptyTagsGo none evs) hs ho 0 [] [] []
       bufRel_nil
     rw [this, hevs]
     simp [coalesceStrip, pendEvents]
